@@ -919,18 +919,19 @@ Qed.
 
 (* ---- the shape of the flag field (configured flag count, byte size) never changes -------------- *)
 Definition same_shape (a b : state) : Prop :=
-  s_bitsize a = s_bitsize b /\ List.length (s_flags a) = List.length (s_flags b).
+  s_bitsize a = s_bitsize b /\ List.length (s_flags a) = List.length (s_flags b)
+  /\ s_code a = s_code b /\ s_input a = s_input b.
 Lemma shape_refl : forall a, same_shape a a. Proof. unfold same_shape; auto. Qed.
 Lemma shape_trans : forall a b c, same_shape a b -> same_shape b c -> same_shape a c.
 Proof. unfold same_shape; intuition congruence. Qed.
 Lemma shape_range : forall a b i, same_shape a b -> flag_in_range b i = flag_in_range a i.
-Proof. intros a b i [H1 H2]. unfold flag_in_range, len. rewrite H1, H2. reflexivity. Qed.
+Proof. intros a b i (H1 & H2 & _). unfold flag_in_range, len. rewrite H1, H2. reflexivity. Qed.
 Lemma shape_setf : forall s j, same_shape s (setf s j).
-Proof. intros. unfold same_shape, setf. cbn [s_bitsize s_flags set_flags]. rewrite length_set_nth_bit. auto. Qed.
+Proof. intros. unfold same_shape, setf. cbn [s_bitsize s_flags set_flags s_code s_input]. rewrite length_set_nth_bit. auto. Qed.
 Lemma shape_resetf : forall s j, same_shape s (resetf s j).
-Proof. intros. unfold same_shape, resetf. cbn [s_bitsize s_flags set_flags]. rewrite length_set_nth_bit. auto. Qed.
+Proof. intros. unfold same_shape, resetf. cbn [s_bitsize s_flags set_flags s_code s_input]. rewrite length_set_nth_bit. auto. Qed.
 Lemma shape_sbp : forall a b, same_but_pos a b -> same_shape a b.
-Proof. intros a b (_ & H1 & H2 & _). unfold same_shape. rewrite H1, H2. auto. Qed.
+Proof. intros a b (H0 & H1 & H2 & _ & H3). unfold same_shape. rewrite H0, H1, H2, H3. auto. Qed.
 Lemma shape_pre_st : forall s, same_shape s (pre_st s).
 Proof.
   intros s. unfold pre_st. cbv zeta. eapply shape_trans; [|apply shape_setf].
@@ -1323,6 +1324,36 @@ Qed.
 Lemma encode_move_cons : forall t, exists a b r, encode (IMove t) = a :: b :: r.
 Proof. intros t. apply encode_shape. Qed.
 
+Definition init_engine (c : config) (st : state) (ca : cache) (w : list (bytes * N)) (lg : list ev) : engine :=
+  mkEng (mkVm (set_code st (prep_code c st)) ca (new_vm_page (c_out c) (c_sep c)) w lg false) true [] false false.
+
+Lemma eng_init_prepared : forall fuel rs c st ca w lg input,
+  c_first c = None -> accepted_b input = true -> stale st = false ->
+  eng_init fuel rs c (new_engine c (Some (st, ca)) w lg) input = (init_engine c st ca w lg, true, SOk).
+Proof.
+  intros fuel rs c st ca w lg input Hf Ha Hstale.
+  unfold eng_init, new_engine. cbn [e_execd e_initd e_v v_st].
+  rewrite set_input_accepted by exact Ha. unfold run_first. rewrite Hf.
+  cbn [eset_v vset_st e_v v_st negb e_initd e_exit e_exiting e_execd].
+  change (s_code (set_input_raw st (Some input))) with (s_code st).
+  change (s_path (set_input_raw st (Some input))) with (s_path st).
+  change (getf (set_input_raw st (Some input)) FLAG_TERMINATE) with (getf st FLAG_TERMINATE).
+  unfold init_engine, prep_code. unfold stale in Hstale.
+  destruct (encode_move_cons (cfg_root c)) as (a & b & r & E).
+  destruct (s_code st) as [|x code] eqn:Hc.
+  - destruct (s_path st) as [|y p] eqn:Hp.
+    + cbn [e_v v_st s_code set_input_raw]. try rewrite Hc. unfold set_code_eng. rewrite E.
+      cbn [e_v v_st vset_st eset_v e_exit e_exiting e_execd e_initd].
+      destruct st; cbn in *; subst; reflexivity.
+    + destruct (getf st FLAG_TERMINATE); [|discriminate].
+      cbn [e_v v_st s_code set_input_raw]. try rewrite Hc. unfold set_code_eng. rewrite E.
+      cbn [e_v v_st vset_st eset_v e_exit e_exiting e_execd e_initd].
+      destruct st; cbn in *; subst; reflexivity.
+  - cbn [e_v v_st s_code set_input_raw]. try rewrite Hc.
+    cbn [e_v v_st vset_st eset_v e_exit e_exiting e_execd e_initd].
+    destruct st; cbn in *; subst; reflexivity.
+Qed.
+
 Lemma eng_exec_prepared : forall fuel rs c st ca w lg input,
   c_first c = None -> accepted_b input = true ->
   (reset_req c input = false \/ s_path st = []) -> stale st = false ->
@@ -1330,58 +1361,890 @@ Lemma eng_exec_prepared : forall fuel rs c st ca w lg input,
   = eng_exec_inner fuel rs c (prep_engine c st ca w lg input).
 Proof.
   intros fuel rs c st ca w lg input Hf Ha Hreset Hstale.
-  unfold eng_exec, eng_init, new_engine. cbn [e_execd e_initd e_v v_st].
-  rewrite set_input_accepted by exact Ha. cbn [eset_v vset_st e_v v_st].
-  unfold run_first. rewrite Hf. cbn [negb e_v v_st s_code s_path set_input_raw].
-  assert (Hinit :
-    (let '(e4', s4) :=
-       match s_code st, s_path st with
-       | [], _ :: _ =>
-         if getf (set_input_raw st (Some input)) FLAG_TERMINATE
-         then (mkEng (mkVm (set_input_raw st (Some input)) ca (new_vm_page (c_out c) (c_sep c)) w lg false) false [] false false, SOk)
-         else let '(v', s') := eng_reset_inner (e_v (mkEng (mkVm (set_input_raw st (Some input)) ca (new_vm_page (c_out c) (c_sep c)) w lg false) false [] false false)) in
-              (eset_v (mkEng (mkVm (set_input_raw st (Some input)) ca (new_vm_page (c_out c) (c_sep c)) w lg false) false [] false false) v', s')
-       | _, _ => (mkEng (mkVm (set_input_raw st (Some input)) ca (new_vm_page (c_out c) (c_sep c)) w lg false) false [] false false, SOk)
-       end in (e4', s4))
-    = (mkEng (mkVm (set_input_raw st (Some input)) ca (new_vm_page (c_out c) (c_sep c)) w lg false) false [] false false, SOk)).
-  { unfold stale in Hstale. destruct (s_code st); [|reflexivity]. destruct (s_path st); [reflexivity|].
-    change (getf (set_input_raw st (Some input)) FLAG_TERMINATE) with (getf st FLAG_TERMINATE).
-    destruct (getf st FLAG_TERMINATE); [reflexivity|discriminate]. }
-  cbv zeta in Hinit.
-  match goal with |- context [match ?X with (e4', s4) => @?F e4' s4 end] =>
-    match X with context [eng_reset_inner] => replace X with
-      (mkEng (mkVm (set_input_raw st (Some input)) ca (new_vm_page (c_out c) (c_sep c)) w lg false) false [] false false, SOk)
-    end end.
-  2:{ symmetry. etransitivity; [|exact Hinit].
-      destruct (s_code st); [|reflexivity]. destruct (s_path st); [reflexivity|].
-      destruct (getf _ FLAG_TERMINATE); [reflexivity|]. destruct (eng_reset_inner _); reflexivity. }
-  cbn [e_v v_st s_code set_input_raw].
-  assert (Hcode : forall code, code <> [] ->
-     set_code_eng (mkEng (mkVm (set_input_raw st (Some input)) ca (new_vm_page (c_out c) (c_sep c)) w lg false) false [] false false) code
-     = (mkEng (mkVm (set_code (set_input_raw st (Some input)) code) ca (new_vm_page (c_out c) (c_sep c)) w lg false) false [] false false, true)).
-  { intros code Hne. unfold set_code_eng. destruct code; [congruence|reflexivity]. }
-  assert (Hne : encode (IMove (cfg_root c)) <> []).
-  { destruct (encode_move_cons (cfg_root c)) as (a & b & r & E). rewrite E. discriminate. }
+  unfold eng_exec. rewrite eng_init_prepared by assumption. cbn [negb].
   assert (Hreset' : (if c_reset_empty c && (len input =? 0)
-                     then eng_reset_force c (prep_engine c st ca w lg input)
-                     else (prep_engine c st ca w lg input, SOk)) = (prep_engine c st ca w lg input, SOk)).
+                     then eng_reset_force c (init_engine c st ca w lg)
+                     else (init_engine c st ca w lg, SOk)) = (init_engine c st ca w lg, SOk)).
   { destruct Hreset as [Hr|Hp].
     - unfold reset_req in Hr. rewrite Hr. reflexivity.
     - destruct (c_reset_empty c && (len input =? 0)); [|reflexivity].
-      unfold eng_reset_force, prep_engine, prep_state. cbn [e_v v_st s_path set_input_raw set_code]. rewrite Hp. reflexivity. }
-  destruct (s_code st) as [|x code] eqn:Hc.
-  - rewrite (Hcode _ Hne). cbn [e_v v_st vset_st e_exit e_exiting e_execd negb].
-    replace (mkEng _ true [] false false) with (prep_engine c st ca w lg input).
-    2:{ unfold prep_engine, prep_state, prep_code. rewrite Hc. destruct st; reflexivity. }
-    rewrite Hreset'. rewrite accepted_valid by exact Ha.
-    rewrite set_input_accepted by exact Ha.
-    replace (eset_v _ _) with (prep_engine c st ca w lg input); [reflexivity|].
-    unfold prep_engine, prep_state, prep_code. rewrite Hc. reflexivity.
-  - cbn [e_v v_st vset_st e_exit e_exiting e_execd negb].
-    replace (mkEng _ true [] false false) with (prep_engine c st ca w lg input).
-    2:{ unfold prep_engine, prep_state, prep_code. rewrite Hc. destruct st; cbn in *; subst; reflexivity. }
-    rewrite Hreset'. rewrite accepted_valid by exact Ha.
-    rewrite set_input_accepted by exact Ha.
-    replace (eset_v _ _) with (prep_engine c st ca w lg input); [reflexivity|].
-    unfold prep_engine, prep_state, prep_code. rewrite Hc. reflexivity.
+      unfold eng_reset_force, init_engine. cbn [e_v v_st s_path set_code]. rewrite Hp. reflexivity. }
+  rewrite Hreset'. rewrite accepted_valid by exact Ha. rewrite set_input_accepted by exact Ha.
+  reflexivity.
+Qed.
+
+Lemma prep_code_cons : forall c st, exists x r, prep_code c st = x :: r.
+Proof.
+  intros c st. unfold prep_code. destruct (s_code st) as [|x r]; [|eauto].
+  destruct (encode_move_cons (cfg_root c)) as (a & b & r & E). rewrite E. eauto.
+Qed.
+
+Lemma stale_terminated : forall st, getf st FLAG_TERMINATE = true -> stale st = false.
+Proof. intros st H. unfold stale. rewrite H. destruct (s_code st); [destruct (s_path st)|]; reflexivity. Qed.
+Lemma stale_no_path : forall st, s_path st = [] -> stale st = false.
+Proof. intros st H. unfold stale. rewrite H. destruct (s_code st); reflexivity. Qed.
+
+Lemma vm_render_clean : forall fuel rs sep lang v,
+  getf (v_st v) FLAG_DIRTY = false -> vm_render fuel rs sep lang v = (v, RROk []).
+Proof. intros. unfold vm_render. rewrite H. reflexivity. Qed.
+
+(* ======================================================================================== *)
+(* 9. C06: while TERMINATE is set in the stored session, requests are blocked                 *)
+(* ======================================================================================== *)
+(* what a blocked request stores: the session as it was, without pending code (the code, or
+   the MOVE <root> injected for an empty one, is taken by exec and dropped when run returns
+   with TERMINATE set) and without the input *)
+Definition blocked_snap (st : state) (ca : cache) : snapshot := (set_input_raw (set_code st []) None, ca).
+
+Lemma blocked_request : forall fuel rs c p input st ca,
+  c_first c = None -> pw_store p = Some (st, ca) ->
+  getf st FLAG_TERMINATE = true -> getf st FLAG_DIRTY = false ->
+  accepted_b input = true -> (reset_req c input = false \/ s_path st = []) ->
+  request_persisted (S fuel) rs c p input
+  = (mkPw (Some (blocked_snap st ca)) (pw_w p) (pw_log p) (pw_taint p), mkResp false SOk [] FOk).
+Proof.
+  intros fuel rs c p input st ca Hf Hs Ht Hd Ha Hreset.
+  unfold request_persisted. rewrite Hs.
+  rewrite eng_exec_prepared by (try assumption; apply stale_terminated; exact Ht).
+  unfold eng_exec_inner, prep_engine. cbn [e_v v_st e_initd e_exit e_exiting].
+  unfold prep_state at 1. cbn [s_code set_input_raw set_code].
+  destruct (prep_code_cons c st) as (x & r & Hc). rewrite Hc.
+  rewrite run_terminate_blocks by exact Ht.
+  cbn [v_st vset_st]. change (getf (set_code (prep_state c st input) []) FLAG_TERMINATE) with (getf st FLAG_TERMINATE).
+  rewrite Ht. unfold eng_flush. cbn [e_execd negb e_v v_st vset_st].
+  rewrite vm_render_clean by exact Hd.
+  cbn [e_exit e_exiting eset_v len List.length N.of_nat]. rewrite andb_false_r. cbn [andb List.app].
+  unfold eng_finish. cbn [e_initd e_v v_st v_ca v_w v_log v_taint vset_st]. rewrite orb_false_r.
+  unfold blocked_snap, snap_of, prep_state. reflexivity.
+Qed.
+
+(* histories of persisted requests *)
+Fixpoint requests (fuel : nat) (rs : rsrc) (c : config) (p : pworld) (inputs : list bytes) : pworld * list response :=
+  match inputs with
+  | [] => (p, [])
+  | i :: r =>
+    let '(p1, resp) := request_persisted fuel rs c p i in
+    let '(p2, resps) := requests fuel rs c p1 r in
+    (p2, resp :: resps)
+  end.
+
+Lemma blocked_snap_idem : forall st ca, blocked_snap (fst (blocked_snap st ca)) (snd (blocked_snap st ca)) = blocked_snap st ca.
+Proof. reflexivity. Qed.
+
+Lemma blocked_until_cleared : forall fuel rs c inputs p st ca,
+  c_first c = None -> pw_store p = Some (st, ca) ->
+  getf st FLAG_TERMINATE = true -> getf st FLAG_DIRTY = false ->
+  Forall (fun i => accepted_b i = true /\ (reset_req c i = false \/ s_path st = [])) inputs ->
+  inputs <> [] ->
+  requests (S fuel) rs c p inputs
+  = (mkPw (Some (blocked_snap st ca)) (pw_w p) (pw_log p) (pw_taint p),
+     map (fun _ => mkResp false SOk [] FOk) inputs).
+Proof.
+  intros fuel rs c inputs. induction inputs as [|i r IH]; intros p st ca Hf Hs Ht Hd Hall Hne; [congruence|].
+  inversion Hall as [|i' r' [Ha Hr] Hall']; subst. cbn [requests map].
+  rewrite (blocked_request fuel rs c p i st ca) by assumption.
+  destruct r as [|j r]; [reflexivity|].
+  rewrite (IH (mkPw (Some (blocked_snap st ca)) (pw_w p) (pw_log p) (pw_taint p))
+              (set_input_raw (set_code st []) None) ca); try assumption; try reflexivity; try discriminate.
+Qed.
+
+(* ======================================================================================== *)
+(* 10. C20: the engine's reset at a graceful end                                              *)
+(* ======================================================================================== *)
+Lemma pops_failed : forall k ca e, cache_pop ca = Err e -> pops k ca = ca.
+Proof. intros [|k] ca e H; cbn [pops]; [reflexivity|]. rewrite H. reflexivity. Qed.
+
+Lemma pops_step : forall k ca,
+  pops k (match cache_pop ca with Ok c => c | _ => ca end) = pops (S k) ca.
+Proof.
+  intros k ca. cbn [pops]. destruct (cache_pop ca) as [c|e|n] eqn:Hp; [reflexivity| |].
+  - eapply pops_failed. exact Hp.
+  - pose proof (pop_never_panics ca) as H. rewrite Hp in H. discriminate.
+Qed.
+
+(* unwind pops every level, the entry node included *)
+Lemma unwind_all : forall n fuel st ca,
+  List.length (s_path st) = S n -> (S n <= fuel)%nat ->
+  unwind fuel st ca = (set_path_idx st [] 0, pops (S n) ca, SOk).
+Proof.
+  induction n as [|n IH]; intros fuel st ca Hl Hf; (destruct fuel as [|fuel]; [lia|]); cbn [unwind].
+  - destruct (s_path st) as [|x [|y p]] eqn:Hp; try discriminate.
+    unfold st_top, st_up. rewrite Hp. cbn [removelast]. rewrite <- pops_step. reflexivity.
+  - destruct (s_path st) as [|x [|y p]] eqn:Hp; try discriminate.
+    unfold st_top, st_up. rewrite Hp.
+    rewrite (IH fuel (set_path_idx st (removelast (x :: y :: p)) 0)).
+    + rewrite pops_step. reflexivity.
+    + cbn [s_path set_path_idx]. pose proof (length_removelast (x :: y :: p)) as H.
+      cbn [List.length] in *. assert (x :: y :: p <> []) by discriminate. lia.
+    + lia.
+Qed.
+
+Lemma unwind_empty : forall fuel st ca, s_path st = [] -> unwind (S fuel) st ca = (st, ca, SErr EGen None).
+Proof. intros fuel st ca H. cbn [unwind]. unfold st_top. rewrite H. reflexivity. Qed.
+
+(* the machine after the reset that follows the final flush *)
+Definition ended (v : vmst) : vmst :=
+  vset_ca (vset_st v (resetf (resetf (set_path_idx (v_st v) [] 0) FLAG_TERMINATE) FLAG_DIRTY))
+          (pops (List.length (s_path (v_st v))) (v_ca v)).
+
+Lemma eng_reset_inner_ok : forall v, s_path (v_st v) <> [] -> eng_reset_inner v = (ended v, SOk).
+Proof.
+  intros v Hp. unfold eng_reset_inner.
+  destruct (List.length (s_path (v_st v))) as [|n] eqn:Hl; [destruct (s_path (v_st v)); [congruence|discriminate]|].
+  rewrite (unwind_all n) by (try exact Hl; lia).
+  unfold st_restart. cbn [s_path set_path_idx]. unfold ended. rewrite Hl. reflexivity.
+Qed.
+Lemma eng_reset_inner_empty : forall v, s_path (v_st v) = [] ->
+  eng_reset_inner v = (vset_ca (vset_st v (v_st v)) (v_ca v), SErr EGen None).
+Proof. intros v Hp. unfold eng_reset_inner. rewrite Hp. cbn [List.length]. rewrite unwind_empty by exact Hp. reflexivity. Qed.
+
+(* what the reset keeps and what it clears *)
+Lemma ended_state : forall v,
+  s_path (v_st (ended v)) = [] /\ s_idx (v_st (ended v)) = 0
+  /\ s_code (v_st (ended v)) = s_code (v_st v) /\ s_lang (v_st (ended v)) = s_lang (v_st v)
+  /\ getf (v_st (ended v)) FLAG_TERMINATE = false /\ getf (v_st (ended v)) FLAG_DIRTY = false
+  /\ (forall i, i <> FLAG_TERMINATE -> i <> FLAG_DIRTY -> getf (v_st (ended v)) i = getf (v_st v) i).
+Proof.
+  intros v. unfold ended. cbn [v_st vset_ca vset_st].
+  repeat split.
+  - rewrite getf_resetf_other by (vm_compute; discriminate). apply getf_resetf_same.
+  - apply getf_resetf_same.
+  - intros i H1 H2. rewrite !getf_resetf_other by assumption. reflexivity.
+Qed.
+
+(* the cache: down to the base scope *)
+Lemma cache_pop_frames : forall ca f0 r t,
+  c_frames ca = f0 :: r ++ [t] -> exists ca', cache_pop ca = Ok ca' /\ c_frames ca' = f0 :: r.
+Proof.
+  intros ca f0 r t H. unfold cache_pop. rewrite H.
+  change (f0 :: r ++ [t]) with ((f0 :: r) ++ [t]). rewrite rev_app_distr. cbn [rev List.app].
+  eexists. split; [reflexivity|]. cbn [c_frames].
+  change (rev r ++ [f0]) with (rev (f0 :: r)). rewrite rev_involutive. reflexivity.
+Qed.
+
+Lemma pops_to_base : forall n ca f0 r,
+  CInv ca -> c_frames ca = f0 :: r -> List.length r = n ->
+  CInv (pops n ca) /\ c_frames (pops n ca) = [f0] /\ c_size (pops n ca) = c_size ca.
+Proof.
+  induction n as [|n IH]; intros ca f0 r Hinv Hf Hl.
+  - destruct r; [|discriminate]. cbn [pops]. auto.
+  - assert (Hne : r <> []) by (destruct r; [discriminate|discriminate]).
+    destruct (exists_last Hne) as (r' & t & ->).
+    destruct (cache_pop_frames ca f0 r' t Hf) as (ca' & Hp & Hf').
+    cbn [pops]. rewrite Hp.
+    destruct (cache_pop_spec ca ca' Hinv Hp) as (Hinv' & Hsz & _).
+    destruct (IH ca' f0 r' Hinv' Hf') as (H1 & H2 & H3).
+    { rewrite app_length in Hl. cbn [List.length] in Hl. lia. }
+    rewrite H3, Hsz. auto.
+Qed.
+
+(* session invariant at the point of the reset: one cache scope per level plus the base scope,
+   the cache's own invariant, and nothing stored in the base scope *)
+Definition end_inv (st : state) (ca : cache) : Prop :=
+  nav_inv st ca /\ CInv ca /\ hd_error (c_frames ca) = Some [].
+
+Lemma ended_cache : forall v, end_inv (v_st v) (v_ca v) ->
+  c_frames (v_ca (ended v)) = [[]] /\ c_use (v_ca (ended v)) = 0
+  /\ cache_levels (v_ca (ended v)) = 1 /\ c_size (v_ca (ended v)) = c_size (v_ca v) /\ CInv (v_ca (ended v)).
+Proof.
+  intros v (Hnav & Hinv & Hbase). unfold ended. cbn [v_ca vset_ca].
+  destruct (c_frames (v_ca v)) as [|f0 r] eqn:Hf; [discriminate|]. injection Hbase as ->.
+  assert (Hl : List.length r = List.length (s_path (v_st v))).
+  { unfold nav_inv, cache_levels, len in Hnav. rewrite Hf in Hnav. cbn [List.length] in Hnav. lia. }
+  destruct (pops_to_base _ _ _ _ Hinv Hf Hl) as (H1 & H2 & H3).
+  split; [exact H2|]. split.
+  - rewrite (inv_use _ H1), H2. reflexivity.
+  - split; [unfold cache_levels; rewrite H2; reflexivity|]. split; [exact H3|exact H1].
+Qed.
+
+(* ======================================================================================== *)
+(* 11. C20: graceful end                                                                      *)
+(* ======================================================================================== *)
+(* the exit-size check of Flush, exactly as the code has it *)
+Definition size_overflow (c : config) (exit page : bytes) : bool :=
+  (0 <? c_out c) && (0 <? len exit) && (c_out c <? w32 (len exit + len page)).
+
+(* the machine handed to Flush at a graceful end: no pending code, last value taken *)
+Definition exiting_vm (v1 : vmst) : vmst :=
+  vset_ca (vset_st v1 (set_code (v_st v1) [])) (snd (cache_last (v_ca v1))).
+
+Lemma graceful_exec_inner : forall fuel rs c e x code v1,
+  s_code (v_st (e_v e)) = x :: code ->
+  run fuel rs (c_sep c) (s_lang (v_st (e_v e))) (x :: code) (vset_st (e_v e) (set_code (v_st (e_v e)) [])) = (v1, [], SOk) ->
+  getf (v_st v1) FLAG_TERMINATE = false -> flag_in_range (v_st (e_v e)) FLAG_DIRTY = true ->
+  eng_exec_inner fuel rs c e
+  = (mkEng (exiting_vm v1) (e_initd e) (c_last (v_ca v1)) true true, false, SOk)
+  /\ getf (v_st v1) FLAG_DIRTY = true.
+Proof.
+  intros fuel rs c e x code v1 Hc Hrun Ht Hr.
+  assert (Hd : getf (v_st v1) FLAG_DIRTY = true).
+  { eapply run_sets_dirty; [exact Hrun|discriminate|exact Ht|]. cbn [v_st vset_st]. exact Hr. }
+  split; [|exact Hd].
+  unfold eng_exec_inner. rewrite Hc. cbn [v_st vset_st s_lang set_code].
+  cbn [v_st vset_st s_lang set_code] in Hrun. rewrite Hrun, Ht.
+  unfold set_code_eng. cbn [e_v v_st].
+  change (getf (set_code (v_st v1) []) FLAG_DIRTY) with (getf (v_st v1) FLAG_DIRTY). rewrite Hd.
+  reflexivity.
+Qed.
+
+Lemma graceful_flush : forall fuel rs c e v' page,
+  e_execd e = true -> e_exiting e = true ->
+  vm_render fuel rs (c_sep c) (s_lang (v_st (e_v e))) (e_v e) = (v', RROk page) ->
+  s_path (v_st v') <> [] ->
+  eng_flush fuel rs c e =
+    if size_overflow c (e_exit e) page
+    then (mkEng (ended v') (e_initd e) (e_exit e) false true, [], FErr EGen)
+    else (mkEng (ended v') (e_initd e) (e_exit e) false true, page ++ e_exit e, FOk).
+Proof.
+  intros fuel rs c e v' page Hx Hq Hr Hp. unfold eng_flush. rewrite Hx. cbn [negb]. rewrite Hr.
+  cbn [eset_v e_exit e_exiting e_v e_initd e_execd]. rewrite Hq, ?Hx.
+  rewrite eng_reset_inner_ok by exact Hp. unfold size_overflow.
+  destruct ((0 <? c_out c) && (0 <? len (e_exit e)) && (c_out c <? w32 (len (e_exit e) + len page))); [reflexivity|].
+  destruct (e_exit e); reflexivity.
+Qed.
+
+Lemma request_persisted_prepared : forall fuel rs c p input st ca,
+  c_first c = None -> pw_store p = Some (st, ca) -> accepted_b input = true ->
+  (reset_req c input = false \/ s_path st = []) -> stale st = false ->
+  request_persisted fuel rs c p input =
+  let '(e1, cont, s) := eng_exec_inner fuel rs c (prep_engine c st ca (pw_w p) (pw_log p) input) in
+  match s with
+  | SPanic n => (mkPw (Some (st, ca)) (v_w (e_v e1)) (v_log (e_v e1)) (pw_taint p || v_taint (e_v e1)), mkResp cont s [] (FPanic n))
+  | SFuel => (mkPw (Some (st, ca)) (v_w (e_v e1)) (v_log (e_v e1)) (pw_taint p || v_taint (e_v e1)), mkResp cont s [] FFuel)
+  | _ =>
+    let '(e2, out, f) := eng_flush fuel rs c e1 in
+    match f with
+    | FPanic _ | FFuel =>
+      (mkPw (Some (st, ca)) (v_w (e_v e2)) (v_log (e_v e2)) (pw_taint p || v_taint (e_v e2)), mkResp cont s out f)
+    | _ =>
+      (mkPw (match eng_finish e2 with Some sn => Some sn | None => Some (st, ca) end)
+            (v_w (e_v e2)) (v_log (e_v e2)) (pw_taint p || v_taint (e_v e2)), mkResp cont s out f)
+    end
+  end.
+Proof.
+  intros fuel rs c p input st ca Hf Hs Ha Hreset Hstale. unfold request_persisted. rewrite Hs.
+  rewrite eng_exec_prepared by assumption. reflexivity.
+Qed.
+
+(* all eight built-in flags exist (flag field of at least one byte) *)
+Definition builtin_flags_ok (st : state) : Prop := flag_in_range st FLAG_LANG = true.
+Lemma builtin_in_range : forall st i, builtin_flags_ok st -> i <= FLAG_LANG -> flag_in_range st i = true.
+Proof. intros st i H Hi. eapply flag_in_range_below; [exact Hi|vm_compute; reflexivity|exact H]. Qed.
+
+(* the whole request at a graceful end *)
+Lemma graceful_end_request : forall fuel rs c p input st ca v1 v' page,
+  c_first c = None -> pw_store p = Some (st, ca) -> accepted_b input = true ->
+  (reset_req c input = false \/ s_path st = []) -> stale st = false ->
+  builtin_flags_ok st ->
+  (* the pending code (or MOVE <root>) ran until no code was left, without error, TERMINATE clear *)
+  run fuel rs (c_sep c) (s_lang st) (prep_code c st)
+      (mkVm (set_code (prep_state c st input) []) ca (new_vm_page (c_out c) (c_sep c)) (pw_w p) (pw_log p) false) = (v1, [], SOk) ->
+  getf (v_st v1) FLAG_TERMINATE = false ->
+  (* the final page renders *)
+  vm_render fuel rs (c_sep c) (s_lang (v_st v1)) (exiting_vm v1) = (v', RROk page) ->
+  s_path (v_st v') <> [] ->
+  ended_on_halt v1 /\ getf (v_st v1) FLAG_DIRTY = true /\
+  request_persisted fuel rs c p input =
+    (mkPw (Some (snap_of (v_st (ended v')) (v_ca (ended v')))) (v_w v') (v_log v') (pw_taint p || v_taint v'),
+     if size_overflow c (c_last (v_ca v1)) page
+     then mkResp false SOk [] (FErr EGen)
+     else mkResp false SOk (page ++ c_last (v_ca v1)) FOk).
+Proof.
+  intros fuel rs c p input st ca v1 v' page Hf Hs Ha Hreset Hstale Hb Hrun Ht Hrender Hp.
+  split.
+  { destruct (run_end_cases _ _ _ _ _ _ _ Hrun) as [H|H]; [|congruence|exact H].
+    cbn [v_st]. apply (builtin_in_range st); [exact Hb|vm_compute; discriminate]. }
+  destruct (prep_code_cons c st) as (x & code & Hc).
+  destruct (graceful_exec_inner fuel rs c (prep_engine c st ca (pw_w p) (pw_log p) input) x code v1) as [Hexec Hd].
+  { unfold prep_engine, prep_state. cbn [e_v v_st s_code set_input_raw set_code]. exact Hc. }
+  { unfold prep_engine. cbn [e_v v_st vset_st]. rewrite <- Hc.
+    change (s_lang (prep_state c st input)) with (s_lang st). exact Hrun. }
+  { exact Ht. }
+  { unfold prep_engine. cbn [e_v v_st]. apply (builtin_in_range st); [exact Hb|vm_compute; discriminate]. }
+  split; [exact Hd|].
+  rewrite (request_persisted_prepared fuel rs c p input st ca) by assumption.
+  rewrite Hexec.
+  rewrite (graceful_flush fuel rs c _ v' page); try reflexivity; try exact Hp.
+  2:{ cbn [e_v]. change (s_lang (v_st (exiting_vm v1))) with (s_lang (v_st v1)). exact Hrender. }
+  cbn [e_exit e_initd]. unfold prep_engine at 1 2. cbn [e_initd].
+  destruct (size_overflow c (c_last (v_ca v1)) page); unfold eng_finish; cbn [e_initd e_v];
+    change (v_w (ended v')) with (v_w v'); change (v_log (ended v')) with (v_log v');
+    change (v_taint (ended v')) with (v_taint v'); reflexivity.
+Qed.
+
+Lemma vm_render_shape : forall fuel rs sep lang v v' r,
+  vm_render fuel rs sep lang v = (v', r) -> same_shape (v_st v) (v_st v').
+Proof.
+  intros fuel rs sep lang v v' r H. unfold vm_render in H.
+  destruct (negb (getf (v_st v) FLAG_DIRTY)); [injection H as <- _; apply shape_refl|]. cbv zeta in H.
+  cbn [v_st vset_st] in H.
+  destruct (where_sym _) as [|x l]; [injection H as <- _; apply shape_resetf|].
+  destruct (page_render _ _ _ _ _ _) as [r0 pg'].
+  assert (Hdone : forall r1, (vlog (vset_pg (vset_st v (resetf (v_st v) FLAG_DIRTY)) pg') (EvRender (x :: l) (s_idx (resetf (v_st v) FLAG_DIRTY)) lang), r1) = (v', r) ->
+                             same_shape (v_st v) (v_st v')).
+  { intros r1 E. injection E as <- _. apply shape_resetf. }
+  destruct r0 as [o|e|n]; try (eapply Hdone; exact H).
+  destruct e; try (eapply Hdone; exact H).
+  destruct (run fuel rs sep lang move_catch_code _) as [[v1 b1] s1] eqn:Hrun.
+  apply run_shape in Hrun. cbn [v_st vset_pg vlog vset_st] in Hrun.
+  assert (Hs : same_shape (v_st v) (v_st v1)) by (eapply shape_trans; [apply shape_resetf|exact Hrun]).
+  destruct s1; try (injection H as <- _; exact Hs).
+  - destruct (page_render _ _ _ _ _ _) as [r1 pg1]. injection H as <- _. exact Hs.
+  - destruct (page_render _ _ _ _ _ _) as [r1 pg1]. injection H as <- _. exact Hs.
+Qed.
+
+(* the session stored at a graceful end has no pending code: the next request starts over *)
+Lemma graceful_end_stored_code : forall fuel rs sep lang v1 v' r,
+  vm_render fuel rs sep lang (exiting_vm v1) = (v', r) -> s_code (v_st (ended v')) = [].
+Proof.
+  intros fuel rs sep lang v1 v' r H. apply vm_render_shape in H. destruct H as (_ & _ & H & _).
+  destruct (ended_state v') as (_ & _ & Hc & _). rewrite Hc, <- H. reflexivity.
+Qed.
+
+(* ======================================================================================== *)
+(* 12. C20: the next request starts at the entry node                                         *)
+(* ======================================================================================== *)
+(* the machine after MOVE <root> from the empty position: one level, a fresh cache scope, the
+   page reset *)
+Definition at_root (rs : rsrc) (sep root : bytes) (v : vmst) : vmst :=
+  let v0 := vlog (pre_vm v) (EvInstr op_MOVE) in
+  let v1 := vlog (vset_ca (vset_st v0 (set_path_idx (v_st v0) [root] 0)) (cache_push (v_ca v0))) (EvMove 0 root root) in
+  let v2 := if rs_observed rs then vlog v1 (EvCode root) else v1 in
+  vset_pg v2 (vm_reset sep (v_pg v2)).
+
+Lemma at_root_facts : forall rs sep root v,
+  s_path (v_st (at_root rs sep root v)) = [root] /\ s_idx (v_st (at_root rs sep root v)) = 0
+  /\ v_ca (at_root rs sep root v) = cache_push (v_ca v)
+  /\ s_flags (v_st (at_root rs sep root v)) = s_flags (pre_st (v_st v)).
+Proof. intros rs sep root v. unfold at_root. cbv zeta. destruct (rs_observed rs); cbn; auto. Qed.
+
+Lemma move_root_from_empty : forall rs sep root b v,
+  valid_sym_b root = true -> s_path (v_st v) = [] ->
+  run_move rs sep root b v =
+  let v1 := vlog (vset_ca (vset_st v (set_path_idx (v_st v) [root] 0)) (cache_push (v_ca v))) (EvMove 0 root root) in
+  let v2 := if rs_observed rs then vlog v1 (EvCode root) else v1 in
+  match rs_code rs root with
+  | Ok code => (vset_pg v2 (vm_reset sep (v_pg v2)), b ++ code, SOk)
+  | Err e => (v2, b, SErr e None)
+  | Panic n => (v2, b, SPanic n)
+  end.
+Proof.
+  intros rs sep root b v Hv Hp. unfold run_move. rewrite apply_named by exact Hv. unfold do_named.
+  rewrite Hp. change (MaxLevel + 1 <=? len []) with false. cbv iota.
+  unfold where_sym. rewrite Hp. cbn [last].
+  assert (Hne : bytes_eqb [] root = false).
+  { pose proof (valid_sym_len root Hv) as Hl. destruct root; [cbn in Hl; lia|reflexivity]. }
+  rewrite Hne. unfold st_down. rewrite Hp. change (MaxLevel <? len []) with false. cbv iota.
+  unfold fetch_code. destruct (rs_observed rs); destruct (rs_code rs root); reflexivity.
+Qed.
+
+Lemma run_move_root : forall fuel rs sep lang root v x code,
+  wf_sym root -> valid_sym_b root = true ->
+  getf (v_st v) FLAG_TERMINATE = false -> s_path (v_st v) = [] ->
+  rs_code rs root = Ok (x :: code) ->
+  run (S fuel) rs sep lang (encode (IMove root)) v
+  = run fuel rs sep (pre_lang lang (v_st v)) (x :: code) (at_root rs sep root v).
+Proof.
+  intros fuel rs sep lang root v x code Hwf Hv Ht Hp Hc.
+  rewrite <- (app_nil_r (encode (IMove root))).
+  rewrite run_S_encoded by (cbn [wf_instr]; assumption). cbv zeta. cbn [opcode_of exec_instr].
+  change (op_MOVE =? op_HALT) with false. cbv iota.
+  rewrite move_root_from_empty; [|exact Hv|].
+  2:{ cbn [v_st vlog]. rewrite v_st_pre_vm. pose proof (pre_st_sbf (v_st v)) as (_ & H & _). rewrite <- H. exact Hp. }
+  cbv zeta. rewrite Hc. cbn [List.app err_check after_check]. reflexivity.
+Qed.
+
+(* ... and when the entry node halts at once, the request ends there *)
+Lemma run_move_root_halt : forall fuel rs sep lang root v rest,
+  wf_sym root -> valid_sym_b root = true ->
+  getf (v_st v) FLAG_TERMINATE = false -> s_path (v_st v) = [] ->
+  rs_code rs root = Ok (encode IHalt ++ rest) ->
+  exists v', run (S (S fuel)) rs sep lang (encode (IMove root)) v = (v', rest, SOk)
+    /\ s_path (v_st v') = [root] /\ s_idx (v_st v') = 0
+    /\ v_ca v' = cache_push (v_ca v) /\ getf (v_st v') FLAG_TERMINATE = false.
+Proof.
+  intros fuel rs sep lang root v rest Hwf Hv Ht Hp Hc.
+  destruct (encode_shape IHalt) as (a & b & t & He).
+  assert (Hc' : rs_code rs root = Ok (a :: (b :: t) ++ rest)) by (rewrite Hc, He; reflexivity).
+  rewrite (run_move_root _ _ _ _ _ _ _ _ Hwf Hv Ht Hp Hc').
+  change (a :: (b :: t) ++ rest) with ((a :: b :: t) ++ rest). rewrite <- He.
+  destruct (at_root_facts rs sep root v) as (F1 & F2 & F3 & F4).
+  assert (Ht1 : getf (v_st (at_root rs sep root v)) FLAG_TERMINATE = false).
+  { unfold getf. rewrite F4. fold (getf (pre_st (v_st v)) FLAG_TERMINATE).
+    rewrite getf_pre_st_other by (vm_compute; discriminate). exact Ht. }
+  rewrite run_halt by exact Ht1. eexists. split; [reflexivity|]. cbv zeta. cbn [v_st vset_st vlog v_ca vset_st].
+  rewrite v_st_pre_vm, v_ca_pre_vm.
+  pose proof (pre_st_sbf (v_st (at_root rs sep root v))) as (_ & Hpath & _ & Hidx & _).
+  split; [cbn [s_path setf set_flags]; rewrite <- Hpath; exact F1|].
+  split; [cbn [s_idx setf set_flags]; rewrite <- Hidx; exact F2|].
+  split; [exact F3|].
+  rewrite getf_setf_other by (vm_compute; discriminate).
+  rewrite getf_pre_st_other by (vm_compute; discriminate). exact Ht1.
+Qed.
+
+(* engine level: a stored session without position and code (as a graceful end leaves it) *)
+Lemma restart_at_entry : forall fuel rs c st ca w lg input,
+  c_first c = None -> accepted_b input = true -> s_code st = [] -> s_path st = [] ->
+  eng_exec fuel rs c (new_engine c (Some (st, ca)) w lg) input
+  = eng_exec_inner fuel rs c (prep_engine c st ca w lg input)
+  /\ s_code (v_st (e_v (prep_engine c st ca w lg input))) = encode (IMove (cfg_root c))
+  /\ s_path (v_st (e_v (prep_engine c st ca w lg input))) = []
+  /\ v_ca (e_v (prep_engine c st ca w lg input)) = ca
+  /\ s_flags (v_st (e_v (prep_engine c st ca w lg input))) = s_flags st.
+Proof.
+  intros fuel rs c st ca w lg input Hf Ha Hc Hp. split.
+  - apply eng_exec_prepared; try assumption; [right; exact Hp|apply stale_no_path; exact Hp].
+  - unfold prep_engine, prep_state, prep_code. cbn [e_v v_st v_ca s_code s_path s_flags set_input_raw set_code].
+    rewrite Hc. auto.
+Qed.
+
+Lemma restart_at_entry_halting_root : forall fuel rs c st ca w lg input rest,
+  c_first c = None -> accepted_b input = true -> s_code st = [] -> s_path st = [] ->
+  getf st FLAG_TERMINATE = false ->
+  wf_sym (cfg_root c) -> valid_sym_b (cfg_root c) = true ->
+  rs_code rs (cfg_root c) = Ok (encode IHalt ++ rest) ->
+  exists e', eng_exec (S (S fuel)) rs c (new_engine c (Some (st, ca)) w lg) input = (e', match rest with [] => false | _ => true end, SOk)
+    /\ s_path (v_st (e_v e')) = [cfg_root c] /\ s_idx (v_st (e_v e')) = 0
+    /\ s_code (v_st (e_v e')) = rest
+    /\ c_frames (v_ca (e_v e')) = c_frames ca ++ [[]].
+Proof.
+  intros fuel rs c st ca w lg input rest Hf Ha Hc Hp Ht Hwf Hv Hroot.
+  destruct (restart_at_entry (S (S fuel)) rs c st ca w lg input Hf Ha Hc Hp) as (He & Hcode & Hpath & _). rewrite He.
+  unfold eng_exec_inner. cbv zeta. rewrite Hcode.
+  destruct (encode_move_cons (cfg_root c)) as (a & b & r & E). rewrite E. rewrite <- E.
+  destruct (run_move_root_halt fuel rs (c_sep c)
+              (s_lang (v_st (vset_st (e_v (prep_engine c st ca w lg input)) (set_code (v_st (e_v (prep_engine c st ca w lg input))) []))))
+              (cfg_root c)
+              (vset_st (e_v (prep_engine c st ca w lg input)) (set_code (v_st (e_v (prep_engine c st ca w lg input))) []))
+              rest Hwf Hv) as (v' & Hrun & F1 & F2 & F3 & F4); [exact Ht|exact Hpath|exact Hroot|].
+  rewrite Hrun, F4.
+  unfold set_code_eng. cbn [e_v v_st]. cbn [v_ca vset_st] in F3.
+  change (v_ca (e_v (prep_engine c st ca w lg input))) with ca in F3.
+  destruct rest as [|y rest].
+  - destruct (getf (set_code (v_st v') []) FLAG_DIRTY).
+    + destruct (cache_last (v_ca v')) as [lastv ca'] eqn:Hl. eexists. split; [reflexivity|].
+      cbn [e_v v_st vset_ca vset_st v_ca s_path s_idx s_code set_code].
+      unfold cache_last in Hl. injection Hl as _ <-. cbn [c_frames]. rewrite F3. auto.
+    + eexists. split; [reflexivity|]. cbn [e_v eset_v v_st vset_st v_ca s_path s_idx s_code set_code]. rewrite F3. auto.
+  - eexists. split; [reflexivity|]. cbn [e_v eset_v v_st vset_st v_ca s_path s_idx s_code set_code]. rewrite F3. auto.
+Qed.
+
+(* ======================================================================================== *)
+(* 13. C20: abnormal end                                                                      *)
+(* ======================================================================================== *)
+(* one instruction that is not HALT leaves no code while no input is being handled: the loop
+   sets TERMINATE (runDeadCheck) *)
+Lemma run_out_of_code_terminates : forall fuel rs sep lang i v v1,
+  wf_instr i -> opcode_of i <> op_HALT -> getf (v_st v) FLAG_TERMINATE = false ->
+  exec_instr rs sep (pre_lang lang (v_st v)) i [] (vlog (pre_vm v) (EvInstr (opcode_of i))) = (v1, [], SOk) ->
+  getf (v_st v1) FLAG_READIN = false ->
+  run (S fuel) rs sep lang (encode i) v = (vset_st v1 (setf (v_st v1) FLAG_TERMINATE), [], SOk).
+Proof.
+  intros fuel rs sep lang i v v1 Hwf Hop Ht He Hr.
+  rewrite <- (app_nil_r (encode i)). rewrite run_S_encoded by assumption. cbv zeta. rewrite He.
+  apply N.eqb_neq in Hop. rewrite Hop. cbn [err_check after_check].
+  rewrite dead_check_terminates by exact Hr. reflexivity.
+Qed.
+
+(* rendering while TERMINATE is set cannot move or run anything: at most DIRTY is cleared *)
+Lemma vm_render_terminated : forall fuel rs sep lang v v' r,
+  getf (v_st v) FLAG_TERMINATE = true -> vm_render (S fuel) rs sep lang v = (v', r) ->
+  v_st v' = resetf (v_st v) FLAG_DIRTY /\ v_ca v' = v_ca v /\ v_w v' = v_w v /\ r <> RRFuel.
+Proof.
+  intros fuel rs sep lang v v' r Ht H. unfold vm_render in H.
+  destruct (negb (getf (v_st v) FLAG_DIRTY)) eqn:Hd.
+  { injection H as <- <-. rewrite resetf_id by (destruct (getf (v_st v) FLAG_DIRTY); [discriminate|reflexivity]).
+    repeat split. discriminate. }
+  cbv zeta in H. cbn [v_st vset_st] in H.
+  destruct (where_sym _) as [|x l]; [injection H as <- <-; repeat split; discriminate|].
+  destruct (page_render _ _ _ _ _ _) as [r0 pg'].
+  assert (Hdone : forall r1, r1 <> RRFuel ->
+     (vlog (vset_pg (vset_st v (resetf (v_st v) FLAG_DIRTY)) pg') (EvRender (x :: l) (s_idx (resetf (v_st v) FLAG_DIRTY)) lang), r1) = (v', r) ->
+     v_st v' = resetf (v_st v) FLAG_DIRTY /\ v_ca v' = v_ca v /\ v_w v' = v_w v /\ r <> RRFuel).
+  { intros r1 Hne E. injection E as <- <-. repeat split. exact Hne. }
+  destruct r0 as [o|e|n]; try (eapply Hdone; [|exact H]; discriminate).
+  destruct e; try (eapply Hdone; [|exact H]; discriminate).
+  rewrite run_terminate_blocks in H.
+  2:{ cbn [v_st vset_pg vlog vset_st]. rewrite getf_resetf_other by (vm_compute; discriminate). exact Ht. }
+  destruct (page_render _ _ _ _ _ _) as [r1 pg1]. injection H as <- <-. cbn [v_st v_ca v_w vlog vset_pg vset_st].
+  repeat split. destruct r1; discriminate.
+Qed.
+
+(* the whole request at an abnormal end: stop is reported, and unless rendering panics the
+   stored session has TERMINATE set and DIRTY clear, position and cache as the run left them *)
+Lemma abnormal_end_request : forall fuel rs c p input st ca v1 b,
+  c_first c = None -> pw_store p = Some (st, ca) -> accepted_b input = true ->
+  (reset_req c input = false \/ s_path st = []) -> stale st = false ->
+  run fuel rs (c_sep c) (s_lang st) (prep_code c st)
+      (mkVm (set_code (prep_state c st input) []) ca (new_vm_page (c_out c) (c_sep c)) (pw_w p) (pw_log p) false) = (v1, b, SOk) ->
+  getf (v_st v1) FLAG_TERMINATE = true ->
+  exists p' resp, request_persisted fuel rs c p input = (p', resp)
+    /\ r_cont resp = false /\ r_exec resp = SOk
+    /\ ((exists n, r_flush resp = FPanic n) \/
+        (pw_store p' = Some (snap_of (resetf (v_st v1) FLAG_DIRTY) (v_ca v1))
+         /\ s_code (v_st v1) = [] /\ r_flush resp <> FFuel)).
+Proof.
+  intros fuel rs c p input st ca v1 b Hf Hs Ha Hreset Hstale Hrun Ht.
+  destruct fuel as [|fuel]; [rewrite run_O in Hrun; discriminate|].
+  assert (Hcode : s_code (v_st v1) = []).
+  { apply run_shape in Hrun. destruct Hrun as (_ & _ & H & _). rewrite <- H. reflexivity. }
+  rewrite (request_persisted_prepared (S fuel) rs c p input st ca) by assumption.
+  destruct (prep_code_cons c st) as (x & code & Hc).
+  assert (Hcode0 : s_code (v_st (e_v (prep_engine c st ca (pw_w p) (pw_log p) input))) = prep_code c st) by reflexivity.
+  unfold eng_exec_inner. cbv zeta. rewrite Hcode0, Hc. rewrite <- Hc.
+  change (run (S fuel) rs (c_sep c) _ (prep_code c st) _)
+    with (run (S fuel) rs (c_sep c) (s_lang st) (prep_code c st)
+           (mkVm (set_code (prep_state c st input) []) ca (new_vm_page (c_out c) (c_sep c)) (pw_w p) (pw_log p) false)).
+  rewrite Hrun, Ht. unfold prep_engine at 1 2. cbn [e_initd e_exit e_exiting].
+  unfold eng_flush. cbn [e_execd negb e_v eset_v e_exit e_exiting e_initd].
+  destruct (vm_render (S fuel) rs (c_sep c) (s_lang (v_st v1)) v1) as [vr r] eqn:Hrender.
+  destruct (vm_render_terminated _ _ _ _ _ _ _ Ht Hrender) as (Hst & Hca & _ & Hnf).
+  cbn [len List.length N.of_nat]. rewrite andb_false_r. cbn [andb].
+  destruct r as [out|er|n|]; [| | |congruence].
+  - do 2 eexists. split; [reflexivity|]. cbn [r_cont r_exec r_flush]. split; [reflexivity|]. split; [reflexivity|].
+    right. unfold eng_finish. cbn [e_initd e_v pw_store eset_v]. rewrite Hst, Hca. split; [reflexivity|]. split; [exact Hcode|discriminate].
+  - do 2 eexists. split; [reflexivity|]. cbn [r_cont r_exec r_flush]. split; [reflexivity|]. split; [reflexivity|].
+    right. unfold eng_finish. cbn [e_initd e_v pw_store eset_v]. rewrite Hst, Hca. split; [reflexivity|]. split; [exact Hcode|discriminate].
+  - do 2 eexists. split; [reflexivity|]. cbn [r_cont r_exec r_flush]. split; [reflexivity|]. split; [reflexivity|].
+    left. eauto.
+Qed.
+
+(* ... and every later request of the session is blocked *)
+Lemma abnormal_end_then_blocked : forall fuel rs c p input st ca v1 b p' resp inputs,
+  c_first c = None -> pw_store p = Some (st, ca) -> accepted_b input = true ->
+  (reset_req c input = false \/ s_path st = []) -> stale st = false ->
+  run fuel rs (c_sep c) (s_lang st) (prep_code c st)
+      (mkVm (set_code (prep_state c st input) []) ca (new_vm_page (c_out c) (c_sep c)) (pw_w p) (pw_log p) false) = (v1, b, SOk) ->
+  getf (v_st v1) FLAG_TERMINATE = true ->
+  request_persisted fuel rs c p input = (p', resp) ->
+  (forall n, r_flush resp <> FPanic n) ->
+  Forall (fun i => accepted_b i = true /\ reset_req c i = false) inputs -> inputs <> [] ->
+  r_cont resp = false /\
+  exists st', pw_store p' = Some (st', v_ca v1) /\ getf st' FLAG_TERMINATE = true /\
+  requests fuel rs c p' inputs
+  = (mkPw (Some (blocked_snap st' (v_ca v1))) (pw_w p') (pw_log p') (pw_taint p'),
+     map (fun _ => mkResp false SOk [] FOk) inputs).
+Proof.
+  intros fuel rs c p input st ca v1 b p' resp inputs Hf Hs Ha Hreset Hstale Hrun Ht Hreq Hnp Hall Hne.
+  destruct (abnormal_end_request fuel rs c p input st ca v1 b Hf Hs Ha Hreset Hstale Hrun Ht)
+    as (p'' & resp' & Hreq' & Hc & _ & Hcases).
+  rewrite Hreq in Hreq'. injection Hreq' as <- <-. split; [exact Hc|].
+  destruct Hcases as [[n Hn]|(Hstore & _ & _)]; [exfalso; eapply Hnp; exact Hn|].
+  destruct fuel as [|fuel]; [rewrite run_O in Hrun; discriminate|].
+  eexists. split; [exact Hstore|].
+  assert (Ht' : getf (set_input_raw (resetf (v_st v1) FLAG_DIRTY) None) FLAG_TERMINATE = true).
+  { change (getf (resetf (v_st v1) FLAG_DIRTY) FLAG_TERMINATE = true).
+    rewrite getf_resetf_other by (vm_compute; discriminate). exact Ht. }
+  split; [exact Ht'|].
+  apply blocked_until_cleared; try assumption.
+  - change (getf (resetf (v_st v1) FLAG_DIRTY) FLAG_DIRTY = false). apply getf_resetf_same.
+  - eapply Forall_impl; [|exact Hall]. intros i [H1 H2]. auto.
+Qed.
+
+(* ======================================================================================== *)
+(* 14. reserved flags across whole requests and histories                                     *)
+(* ======================================================================================== *)
+(* "flag f stays clear through any run over rs" *)
+Definition run_keeps (rs : rsrc) (f : N) : Prop :=
+  forall fuel sep lang b v v' b' s,
+    run fuel rs sep lang b v = (v', b', s) -> getf (v_st v) f = false -> getf (v_st v') f = false.
+Definition first_keeps (c : config) (f : N) : Prop :=
+  match c_first c with Some sc => run_keeps (first_rsrc sc) f | None => True end.
+
+Lemma run_keeps_reserved : forall rs, run_keeps rs FLAG_RESERVED.
+Proof. intros rs fuel sep lang b v v' b' s H H0. rewrite (run_reserved_const _ _ _ _ _ _ _ _ _ H). exact H0. Qed.
+Lemma run_keeps_loadfail : forall rs, ~ can_fail rs -> run_keeps rs FLAG_LOADFAIL.
+Proof.
+  intros rs Hnf fuel sep lang b v v' b' s H H0.
+  destruct (getf (v_st v') FLAG_LOADFAIL) eqn:E; [|reflexivity].
+  exfalso. apply Hnf. eapply run_loadfail_needs_failure; [exact H|]. congruence.
+Qed.
+
+Lemma getf_resetf_keeps : forall s j f, getf s f = false -> getf (resetf s j) f = false.
+Proof.
+  intros s j f H. destruct (N.eq_dec f j) as [->|Hne]; [apply getf_resetf_same|].
+  rewrite getf_resetf_other by exact Hne. exact H.
+Qed.
+Lemma getf_sbp : forall a b f, same_but_pos a b -> getf b f = getf a f.
+Proof. intros a b f (_ & _ & H & _). unfold getf. rewrite H. reflexivity. Qed.
+
+Lemma unwind_sbp : forall fuel st ca st' ca' s, unwind fuel st ca = (st', ca', s) -> same_but_pos st st'.
+Proof.
+  induction fuel as [|fuel IH]; intros st ca st' ca' s H; cbn [unwind] in H; [injection H as <- _ _; apply sbp_refl|].
+  destruct (st_top st) as [t| |]; try (injection H as <- _ _; apply sbp_refl).
+  destruct (st_up st) as [[sy st1]| |] eqn:Hu; try (injection H as <- _ _; apply sbp_refl).
+  pose proof (st_up_sbp _ _ _ Hu) as H1.
+  destruct t; [injection H as <- _ _; exact H1|]. eapply sbp_trans; [exact H1|eapply IH; exact H].
+Qed.
+
+Lemma falses_nth : forall n k, nth k (falses n) false = false.
+Proof. induction n as [|n IH]; intros [|k]; cbn [falses nth]; auto. Qed.
+
+Lemma st_restart_keeps : forall st st' f, f < 8 -> st_restart st = Ok st' -> getf st' f = false.
+Proof.
+  intros st st' f Hf H. unfold st_restart in H. destruct (s_path st); [discriminate|]. injection H as <-.
+  unfold getf. cbn [s_flags]. assert (Hk : (N.to_nat f < 8)%nat) by lia.
+  destruct (N.to_nat f) as [|[|[|[|[|[|[|[|k]]]]]]]]; try reflexivity. lia.
+Qed.
+
+Lemma eng_reset_inner_keeps : forall v v' s f, f < 8 ->
+  eng_reset_inner v = (v', s) -> getf (v_st v) f = false -> getf (v_st v') f = false.
+Proof.
+  intros v v' s f Hf H H0. unfold eng_reset_inner in H.
+  destruct (unwind _ (v_st v) (v_ca v)) as [[st ca] s1] eqn:Hu.
+  pose proof (unwind_sbp _ _ _ _ _ _ Hu) as Hs.
+  assert (H1 : getf st f = false) by (rewrite (getf_sbp _ _ f Hs); exact H0).
+  destruct s1; try (injection H as <- _; exact H1).
+  injection H as <- _. cbn [v_st vset_ca vset_st]. apply getf_resetf_keeps. apply getf_resetf_keeps.
+  destruct (st_restart st) as [st2| |] eqn:Hr; try exact H1. eapply st_restart_keeps; eauto.
+Qed.
+
+Lemma vm_render_keeps : forall fuel rs sep lang v v' r f, run_keeps rs f ->
+  vm_render fuel rs sep lang v = (v', r) -> getf (v_st v) f = false -> getf (v_st v') f = false.
+Proof.
+  intros fuel rs sep lang v v' r f Hk H H0. unfold vm_render in H.
+  destruct (negb (getf (v_st v) FLAG_DIRTY)); [injection H as <- _; exact H0|]. cbv zeta in H.
+  cbn [v_st vset_st] in H.
+  assert (H1 : getf (resetf (v_st v) FLAG_DIRTY) f = false) by (apply getf_resetf_keeps; exact H0).
+  destruct (where_sym _) as [|x l]; [injection H as <- _; exact H1|].
+  destruct (page_render _ _ _ _ _ _) as [r0 pg'].
+  assert (Hdone : forall r1, (vlog (vset_pg (vset_st v (resetf (v_st v) FLAG_DIRTY)) pg') (EvRender (x :: l) (s_idx (resetf (v_st v) FLAG_DIRTY)) lang), r1) = (v', r) ->
+                             getf (v_st v') f = false).
+  { intros r1 E. injection E as <- _. exact H1. }
+  destruct r0 as [o|e|n]; try (eapply Hdone; exact H).
+  destruct e; try (eapply Hdone; exact H).
+  destruct (run fuel rs sep lang move_catch_code _) as [[v1 b1] s1] eqn:Hrun.
+  pose proof (Hk _ _ _ _ _ _ _ _ Hrun H1) as Hrun'.
+  destruct s1; try (injection H as <- _; exact Hrun');
+    destruct (page_render _ _ _ _ _ _) as [r1 pg1]; injection H as <- _; exact Hrun'.
+Qed.
+
+Lemma eng_flush_keeps : forall fuel rs c e e' out fs f, run_keeps rs f -> f < 8 ->
+  eng_flush fuel rs c e = (e', out, fs) -> getf (v_st (e_v e)) f = false -> getf (v_st (e_v e')) f = false.
+Proof.
+  intros fuel rs c e e' out fs f Hk Hf H H0. unfold eng_flush in H.
+  destruct (negb (e_execd e)); [injection H as <- _ _; exact H0|].
+  destruct (vm_render fuel rs (c_sep c) _ (e_v e)) as [v r] eqn:Hr.
+  pose proof (vm_render_keeps _ _ _ _ _ _ _ _ Hk Hr H0) as H1.
+  assert (Hreset : forall v' s, eng_reset_inner v = (v', s) -> getf (v_st v') f = false).
+  { intros v' s E. eapply eng_reset_inner_keeps; eauto. }
+  cbn [eset_v e_v e_exit e_exiting e_initd e_execd] in H.
+  destruct r as [o|er|n|]; try (injection H as <- _ _; exact H1).
+  - destruct ((0 <? c_out c) && (0 <? len (e_exit e)) && (c_out c <? w32 (len (e_exit e) + len o))).
+    + destruct (e_exiting e); [|injection H as <- _ _; exact H1].
+      destruct (eng_reset_inner v) as [v2 s2] eqn:E. injection H as <- _ _. eapply Hreset; eauto.
+    + destruct (e_exiting e); [|destruct (e_exit e); injection H as <- _ _; exact H1].
+      destruct (eng_reset_inner v) as [v2 s2] eqn:E.
+      destruct (e_exit e); destruct s2; injection H as <- _ _; eapply Hreset; eauto.
+  - destruct ((0 <? c_out c) && (0 <? len (e_exit e)) && (c_out c <? w32 (len (e_exit e) + 0))).
+    + destruct (e_exiting e); [|injection H as <- _ _; exact H1].
+      destruct (eng_reset_inner v) as [v2 s2] eqn:E. injection H as <- _ _. eapply Hreset; eauto.
+    + destruct (e_exit e) as [|y ex]; [injection H as <- _ _; exact H1|].
+      destruct (e_exiting e); [|injection H as <- _ _; exact H1].
+      destruct (eng_reset_inner v) as [v2 s2] eqn:E.
+      destruct s2; injection H as <- _ _; eapply Hreset; eauto.
+Qed.
+
+Lemma run_first_keeps : forall fuel c lang e e' r s f, first_keeps c f ->
+  run_first fuel c lang e = (e', r, s) -> getf (v_st (e_v e)) f = false -> getf (v_st (e_v e')) f = false.
+Proof.
+  intros fuel c lang e e' r s f Hk H H0. unfold run_first in H. unfold first_keeps in Hk.
+  destruct (c_first c) as [script|]; [|injection H as <- _ _; exact H0].
+  destruct (st_down (v_st (e_v e)) first_sym) as [st1| |] eqn:Hd; try (injection H as <- _ _; exact H0).
+  destruct (run fuel (first_rsrc script) [] lang first_code _) as [[v2 b] s2] eqn:Hrun.
+  assert (Hst1 : getf st1 f = false) by (rewrite (getf_sbp _ _ f (st_down_sbp _ _ _ Hd)); exact H0).
+  pose proof (Hk _ _ _ _ _ _ _ _ Hrun Hst1) as Hrun'. clear Hrun. rename Hrun' into Hrun.
+  destruct (match s2 with SOk => _ | _ => _ end) as [[r0 s0] take].
+  destruct (if take then cache_last (v_ca v2) else (e_exit e, v_ca v2)) as [ex ca2].
+  injection H as <- _ _. cbn [e_v v_st].
+  assert (H3 : getf (resetf (resetf (v_st v2) FLAG_DIRTY) FLAG_TERMINATE) f = false)
+    by (apply getf_resetf_keeps; apply getf_resetf_keeps; exact Hrun).
+  destruct (st_up _) as [[sy st']| |] eqn:Hu; try exact H3.
+  rewrite (getf_sbp _ _ f (st_up_sbp _ _ _ Hu)). exact H3.
+Qed.
+
+Lemma eng_init_keeps : forall fuel rs c e input e' cont s f, run_keeps rs f -> first_keeps c f -> f < 8 ->
+  eng_init fuel rs c e input = (e', cont, s) -> getf (v_st (e_v e)) f = false -> getf (v_st (e_v e')) f = false.
+Proof.
+  intros fuel rs c e input e' cont s f Hk Hkf Hf H H0. unfold eng_init in H.
+  destruct (if e_execd e then _ else _) as [e1 s1] eqn:Hprep.
+  assert (H1 : getf (v_st (e_v e1)) f = false).
+  { destruct (e_execd e); [|injection Hprep as <- _; exact H0].
+    destruct (eng_flush fuel rs c e) as [[e0 o0] f0] eqn:Hfl. injection Hprep as <- _.
+    eapply eng_flush_keeps; eauto. }
+  destruct s1; try (injection H as <- _ _; exact H1).
+  cbn [e_initd e_v] in H.
+  destruct (e_initd e1); [injection H as <- _ _; exact H1|].
+  destruct (set_input (v_st (e_v e1)) (Some input)) as [st1| |] eqn:Hsi; try (injection H as <- _ _; exact H1).
+  assert (Hst1 : getf st1 f = false).
+  { unfold set_input in Hsi. destruct (INPUT_LIMIT <? len input); [discriminate|]. injection Hsi as <-. exact H1. }
+  destruct (run_first fuel c _ _) as [[e4 r] s4] eqn:Hrf.
+  apply (run_first_keeps _ _ _ _ _ _ _ f Hkf) in Hrf; [|exact Hst1].
+  destruct s4; try (injection H as <- _ _; exact Hrf).
+  destruct (negb r); [injection H as <- _ _; exact Hrf|].
+  destruct (match s_code (v_st (e_v e4)) with [] => _ | _ => _ end) as [e4' s4'] eqn:Hstale.
+  assert (H4 : getf (v_st (e_v e4')) f = false).
+  { destruct (s_code (v_st (e_v e4))); [|injection Hstale as <- _; exact Hrf].
+    destruct (s_path (v_st (e_v e4))); [injection Hstale as <- _; exact Hrf|].
+    destruct (getf (v_st (e_v e4)) FLAG_TERMINATE); [injection Hstale as <- _; exact Hrf|].
+    destruct (eng_reset_inner (e_v e4)) as [v' s'] eqn:E. injection Hstale as <- _.
+    cbn [e_v eset_v]. eapply eng_reset_inner_keeps; eauto. }
+  destruct s4'; try (injection H as <- _ _; exact H4).
+  destruct (match s_code (v_st (e_v e4')) with [] => _ | _ => _ end) as [e5 cont5] eqn:Hsc.
+  assert (H5 : getf (v_st (e_v e5)) f = false).
+  { destruct (s_code (v_st (e_v e4'))); [|injection Hsc as <- _; exact H4].
+    unfold set_code_eng in Hsc. destruct (encode (IMove (cfg_root c))).
+    - destruct (getf (set_code (v_st (e_v e4')) []) FLAG_DIRTY).
+      + destruct (cache_last _) as [lastv ca']. injection Hsc as <- _. exact H4.
+      + injection Hsc as <- _. exact H4.
+    - injection Hsc as <- _. exact H4. }
+  injection H as <- _ _. exact H5.
+Qed.
+
+Lemma eng_exec_keeps : forall fuel rs c e input e' cont s f, run_keeps rs f -> first_keeps c f -> f < 8 ->
+  eng_exec fuel rs c e input = (e', cont, s) -> getf (v_st (e_v e)) f = false -> getf (v_st (e_v e')) f = false.
+Proof.
+  intros fuel rs c e input e' cont s f Hk Hkf Hf H H0. unfold eng_exec in H.
+  destruct (eng_init fuel rs c e input) as [[e1 cont1] s1] eqn:Hi.
+  apply (eng_init_keeps _ _ _ _ _ _ _ _ f Hk Hkf Hf) in Hi; [|exact H0].
+  destruct s1; try (injection H as <- _ _; exact Hi).
+  destruct (negb cont1); [injection H as <- _ _; exact Hi|].
+  destruct (if c_reset_empty c && (len input =? 0) then _ else _) as [e2 s2] eqn:Hre.
+  assert (H2 : getf (v_st (e_v e2)) f = false).
+  { destruct (c_reset_empty c && (len input =? 0)); [|injection Hre as <- _; exact Hi].
+    unfold eng_reset_force in Hre. destruct (s_path (v_st (e_v e1))); [injection Hre as <- _; exact Hi|].
+    destruct (eng_reset_inner _) as [v' s'] eqn:E. injection Hre as <- _. cbn [e_v eset_v].
+    eapply eng_reset_inner_keeps; [exact Hf|exact E|]. exact Hi. }
+  destruct s2; try (injection H as <- _ _; exact H2).
+  destruct ((0 <? len input) && negb (valid_input_b input)); [injection H as <- _ _; exact H2|].
+  destruct (set_input (v_st (e_v e2)) (Some input)) as [st'| |] eqn:Hsi; try (injection H as <- _ _; exact H2).
+  assert (Hst' : getf st' f = false).
+  { unfold set_input in Hsi. destruct (INPUT_LIMIT <? len input); [discriminate|]. injection Hsi as <-. exact H2. }
+  unfold eng_exec_inner in H. cbn [e_v eset_v v_st vset_st] in H.
+  destruct (s_code st'); [injection H as <- _ _; exact Hst'|].
+  destruct (run fuel rs (c_sep c) _ _ _) as [[v1 b] s3] eqn:Hrun.
+  pose proof (Hk _ _ _ _ _ _ _ _ Hrun Hst') as Hrun'. clear Hrun. rename Hrun' into Hrun.
+  destruct s3; try (injection H as <- _ _; exact Hrun).
+  destruct (getf (v_st v1) FLAG_TERMINATE); [injection H as <- _ _; exact Hrun|].
+  unfold set_code_eng in H. cbn [e_v] in H.
+  destruct b.
+  - destruct (getf (set_code (v_st v1) []) FLAG_DIRTY).
+    + destruct (cache_last _) as [lastv ca']. injection H as <- _ _. exact Hrun.
+    + injection H as <- _ _. exact Hrun.
+  - injection H as <- _ _. exact Hrun.
+Qed.
+
+Definition store_clear (p : pworld) (f : N) : Prop :=
+  match pw_store p with Some (st, _) => getf st f = false | None => True end.
+
+Lemma fresh_state_clear : forall c f, f <> FLAG_LANG -> getf (fresh_state c) f = false.
+Proof.
+  intros c f Hf. unfold fresh_state.
+  assert (H0 : getf (st_set_language lang_lookup (new_state (c_flagcount c)) (c_lang c)) f = false).
+  { rewrite getf_set_language. unfold getf, new_state. cbn [s_flags]. apply falses_nth. }
+  destruct (s_lang _); [rewrite getf_setf_other by exact Hf|]; exact H0.
+Qed.
+
+(* one persisted request keeps a clear reserved flag clear in the store *)
+Lemma request_persisted_keeps : forall fuel rs c p input p' resp f,
+  run_keeps rs f -> first_keeps c f -> f < 8 -> f <> FLAG_LANG ->
+  request_persisted fuel rs c p input = (p', resp) -> store_clear p f -> store_clear p' f.
+Proof.
+  intros fuel rs c p input p' resp f Hk Hkf Hf Hl H H0. unfold request_persisted in H.
+  set (e := new_engine c (pw_store p) (pw_w p) (pw_log p)) in *.
+  assert (He : getf (v_st (e_v e)) f = false).
+  { unfold e, new_engine. unfold store_clear in H0. destruct (pw_store p) as [[st ca]|]; cbn [e_v v_st]; [exact H0|].
+    apply fresh_state_clear. exact Hl. }
+  assert (H00 : match (match pw_store p with Some s => Some s | None => Some (snap_of (v_st (e_v e)) (v_ca (e_v e))) end) with
+                | Some (st, _) => getf st f = false | None => True end).
+  { unfold store_clear in H0. destruct (pw_store p) as [[st ca]|]; [exact H0|]. exact He. }
+  destruct (eng_exec fuel rs c e input) as [[e1 cont] s] eqn:Hx.
+  apply (eng_exec_keeps _ _ _ _ _ _ _ _ f Hk Hkf Hf) in Hx; [|exact He].
+  destruct s; try (injection H as <- _; exact H00).
+  - destruct (eng_flush fuel rs c e1) as [[e2 out] fs] eqn:Hfl.
+    apply (eng_flush_keeps _ _ _ _ _ _ _ f Hk Hf) in Hfl; [|exact Hx].
+    destruct fs; injection H as <- _; try exact H00;
+      unfold store_clear, eng_finish; cbn [pw_store]; (destruct (e_initd e2); [exact Hfl|exact H00]).
+  - destruct (eng_flush fuel rs c e1) as [[e2 out] fs] eqn:Hfl.
+    apply (eng_flush_keeps _ _ _ _ _ _ _ f Hk Hf) in Hfl; [|exact Hx].
+    destruct fs; injection H as <- _; try exact H00;
+      unfold store_clear, eng_finish; cbn [pw_store]; (destruct (e_initd e2); [exact Hfl|exact H00]).
+Qed.
+
+(* ... hence every history: RESERVED is never set in a stored session, and LOADFAIL only if
+   some function of the application or the engine's entry function can fail *)
+Lemma requests_keep : forall fuel rs c inputs p p' resps f,
+  run_keeps rs f -> first_keeps c f -> f < 8 -> f <> FLAG_LANG ->
+  requests fuel rs c p inputs = (p', resps) -> store_clear p f -> store_clear p' f.
+Proof.
+  intros fuel rs c inputs. induction inputs as [|i r IH]; intros p p' resps f Hk Hkf Hf Hl H H0; cbn [requests] in H.
+  - injection H as <- _. exact H0.
+  - destruct (request_persisted fuel rs c p i) as [p1 resp] eqn:H1.
+    destruct (requests fuel rs c p1 r) as [p2 resps2] eqn:H2. injection H as <- _.
+    eapply IH; eauto. eapply request_persisted_keeps; eauto.
+Qed.
+
+(* the observable form (monitor c06_reserved of EngineMon): from the empty store, whatever the
+   application, its functions and the inputs do, RESERVED is never set in a stored session; and
+   LOADFAIL is set only if some function (of the application or the engine's entry function)
+   can fail *)
+Definition any_fail_b (a : app) (c : config) : bool :=
+  existsb (fun f => existsb fr_fail (snd f)) (a_funcs a)
+  || match c_first c with Some s => existsb fr_fail s | None => false end.
+
+Lemma alookup_In_pair : forall {V} k (l : list (bytes * V)) v, alookup k l = Some v -> exists k', In (k', v) l.
+Proof.
+  intros V k l v. induction l as [|[k' v'] l IH]; cbn [alookup]; [discriminate|].
+  destruct (bytes_eqb k k'); intros H.
+  - injection H as ->. exists k'. left. reflexivity.
+  - destruct (IH H) as (k2 & Hin). exists k2. right. exact Hin.
+Qed.
+
+Lemma no_fail_app : forall a, existsb (fun f => existsb fr_fail (snd f)) (a_funcs a) = false -> ~ can_fail (app_rsrc a).
+Proof.
+  intros a H (sym & script & fr & Hf & Hin & Hfail). cbn [app_rsrc rs_func] in Hf.
+  destruct (alookup_In_pair _ _ _ Hf) as (k' & Hk).
+  assert (E : existsb (fun f => existsb fr_fail (snd f)) (a_funcs a) = true).
+  { apply existsb_exists. exists (k', script). split; [exact Hk|]. cbn [snd]. apply existsb_exists. exists fr. auto. }
+  congruence.
+Qed.
+Lemma no_fail_first : forall sc, existsb fr_fail sc = false -> ~ can_fail (first_rsrc sc).
+Proof.
+  intros sc H (sym & script & fr & Hf & Hin & Hfail). cbn [first_rsrc rs_func] in Hf.
+  destruct (bytes_eqb sym first_sym); [|discriminate]. injection Hf as <-.
+  assert (E : existsb fr_fail sc = true) by (apply existsb_exists; exists fr; auto). congruence.
+Qed.
+
+Lemma history_reserved_clear : forall fuel a c inputs p' resps,
+  requests fuel (app_rsrc a) c (mkPw None [] [] false) inputs = (p', resps) -> store_clear p' FLAG_RESERVED.
+Proof.
+  intros fuel a c inputs p' resps H.
+  eapply (requests_keep fuel (app_rsrc a) c inputs (mkPw None [] [] false) p' resps FLAG_RESERVED); try exact H.
+  - apply run_keeps_reserved.
+  - unfold first_keeps. destruct (c_first c); [apply run_keeps_reserved|exact I].
+  - vm_compute. reflexivity.
+  - vm_compute. discriminate.
+  - exact I.
+Qed.
+
+Lemma history_loadfail_needs_failure : forall fuel a c inputs p' resps,
+  any_fail_b a c = false ->
+  requests fuel (app_rsrc a) c (mkPw None [] [] false) inputs = (p', resps) -> store_clear p' FLAG_LOADFAIL.
+Proof.
+  intros fuel a c inputs p' resps Hnf H. unfold any_fail_b in Hnf. apply orb_false_elim in Hnf as [H1 H2].
+  eapply (requests_keep fuel (app_rsrc a) c inputs (mkPw None [] [] false) p' resps FLAG_LOADFAIL); try exact H.
+  - apply run_keeps_loadfail. apply no_fail_app. exact H1.
+  - unfold first_keeps. destruct (c_first c) as [sc|]; [|exact I]. apply run_keeps_loadfail. apply no_fail_first. exact H2.
+  - vm_compute. reflexivity.
+  - vm_compute. discriminate.
+  - exact I.
+Qed.
+
+(* the guard of this file is the complement of the monitor's refused_b *)
+From Vise Require EngineMon.
+Lemma accepted_b_not_refused : forall i, accepted_b i = negb (EngineMon.refused_b i).
+Proof.
+  intros i. unfold accepted_b, EngineMon.refused_b.
+  destruct (valid_input_b i); cbn [negb]; destruct (INPUT_LIMIT <? len i) eqn:E1; destruct (len i <=? INPUT_LIMIT) eqn:E2;
+    destruct (0 <? len i) eqn:E3; destruct (len i =? 0) eqn:E4; cbn; try reflexivity; lia.
 Qed.
